@@ -18,7 +18,7 @@ import (
 
 var lifecycleFuncs = []string{
 	"Shutdown", "handleConnection", "isRunning", "teardown", "GetListener", "setListener", "refreshTimeout",
-	"Bind", "Listen", "DoListen", "RegisterInterface",
+	"Bind", "bind", "Listen", "DoListen", "RegisterInterface",
 }
 
 // fields of Service that matter for the lifecycle
